@@ -43,10 +43,14 @@ func (i *Interp) reInterp(fr *frame, r *reObj) value {
 		name = "CompilePOSIX"
 	}
 	fn := pkg.Func(name)
-	saved := i.bypass
+	// compiled with the undo log off: the object is cached across paths (initial state)
+	saved, savedLog := i.bypass, i.logging
 	i.bypass = fn
+	i.logging = false
+	i.initDepth++
 	res := i.callSSA(fr, 0, fn, []value{r.pattern}, nil).(tuple)
-	i.bypass = saved
+	i.initDepth--
+	i.bypass, i.logging = saved, savedLog
 	r.interp = res[0]
 	return r.interp
 }
